@@ -8,7 +8,8 @@ Open Scope Z_scope.
 Inductive zop :=
 | ZPush (x : Z) | ZPop | ZGet (i : Z) | ZSet (i x : Z) | ZIdx (i : Z) | ZIdxSet (i x : Z)
 | ZSlices | ZIter | ZMap (k : Z) | ZDrain (k : Z) | ZDrainLen | ZExtend (xs : list Z)
-| ZLen | ZEmpty | ZFull | ZMaxLen | ZSetFirst (i : Z) | ZIterLoop (k : Z).
+| ZLen | ZEmpty | ZFull | ZMaxLen | ZSetFirst (i : Z) | ZIterLoop (k : Z)
+| ZDrainNth (k : Z) | ZIterNth (k : Z) | ZIterRev | ZIterLast.
 
 Definition n (z : Z) : nat := Z.to_nat z.
 
@@ -19,6 +20,7 @@ Definition to_op (o : zop) : option (op Z) :=
   | ZSlices => Some OSlices | ZIter => Some OIter | ZMap k => Some (OMap (Z.add k))
   | ZDrain k => Some (ODrain (n k)) | ZDrainLen => Some OLen | ZExtend xs => Some (OExtend xs)
   | ZLen => Some OLen | ZEmpty => Some OIsEmpty | ZFull => Some OIsFull | ZMaxLen => Some OMaxLen
+  | ZDrainNth k => Some (ODrainNth (n k)) | ZIterNth k => Some (OIterNth (n k)) | ZIterRev => Some OIterRev | ZIterLast => Some OIterLast
   | _ => None
   end.
 
